@@ -9,22 +9,32 @@
 From Coq Require Import List Bool Arith String.
 Import ListNotations.
 
-Inductive need := NeedMut | NeedOwn | NeedRot | NeedTra | NeedNorm.
+Inductive need := NeedMutX | NeedMutW | NeedBin | NeedOwn | NeedRot | NeedTra | NeedNorm.
 Record entry := mkEntry { e_id : nat; e_name : string; e_needs : list need }.
 Record grp := mkGrp { g_id : nat; g_name : string; g_rot : bool; g_tra : bool; g_norm : bool }.
-(* storage: 0 owning, 1 Eigen::Map, 2 Eigen::Map<const>;  scalar: 0 double, 1 float *)
+(* storage kind: 0 owning, 1 Eigen::Map, 2 Eigen::Map<const> (all operands alike), 3..5 mixed: the operands (X, Y, w, t) of an
+   entry are stored as  3: owning, Map<const>, Map, owning   4: Map, owning, Map<const>, Map   5: Map<const>, Map, owning, Map<const>
+   so that the two stored operands of a binary entry differ in storage;  scalar: 0 double, 1 float.
+   NeedMutX / NeedMutW: the entry mutates its group / tangent operand (not a const view); NeedBin: the entry has two stored
+   operands (the mixed kinds apply to these only). *)
+Definition const_view_X (storage : nat) : bool := Nat.eqb storage 2 || Nat.eqb storage 5.
+Definition const_view_W (storage : nat) : bool := Nat.eqb storage 2 || Nat.eqb storage 4.
 Definition need_ok (g : grp) (storage : nat) (n : need) : bool :=
   match n with
-  | NeedMut => negb (Nat.eqb storage 2)
+  | NeedMutX => negb (const_view_X storage)
+  | NeedMutW => negb (const_view_W storage)
+  | NeedBin => true
   | NeedOwn => Nat.eqb storage 0
   | NeedRot => g_rot g | NeedTra => g_tra g | NeedNorm => g_norm g
   end.
-Definition applicable (e : entry) (g : grp) (storage : nat) : bool := forallb (need_ok g storage) (e_needs e).
+Definition is_bin (e : entry) : bool := existsb (fun n => match n with NeedBin => true | _ => false end) (e_needs e).
+Definition applicable (e : entry) (g : grp) (storage : nat) : bool :=
+  forallb (need_ok g storage) (e_needs e) && (Nat.ltb storage 3 || is_bin e).
 
 Definition cell := (nat * nat * nat * nat)%type.      (* entry id, group id, scalar, storage *)
 Definition all_cells (es : list entry) (gs : list grp) : list cell :=
   flat_map (fun e => flat_map (fun g => flat_map (fun sc => flat_map (fun st =>
-     if applicable e g st then [(e_id e, g_id g, sc, st)] else []) [0; 1; 2]) [0; 1]) gs) es.
+     if applicable e g st then [(e_id e, g_id g, sc, st)] else []) [0; 1; 2; 3; 4; 5]) [0; 1]) gs) es.
 
 Definition cell_eqb (a b : cell) : bool :=
   let '(a1, a2, a3, a4) := a in let '(b1, b2, b3, b4) := b in Nat.eqb a1 b1 && Nat.eqb a2 b2 && Nat.eqb a3 b3 && Nat.eqb a4 b4.
@@ -39,22 +49,22 @@ Definition matrix_ok_except (es : list entry) (gs : list grp) (excused : list ce
   forallb (fun c => existsb (cell_eqb c) excused || cell_ok results c) (all_cells es gs).
 
 (* soundness of the bookkeeping: if matrix_ok holds then every applicable (entry, group, scalar, storage) has an OK result *)
-Lemma all_cells_complete es gs e g sc st : In e es -> In g gs -> (sc < 2)%nat -> (st < 3)%nat -> applicable e g st = true ->
+Lemma all_cells_complete es gs e g sc st : In e es -> In g gs -> (sc < 2)%nat -> (st < 6)%nat -> applicable e g st = true ->
   In (e_id e, g_id g, sc, st) (all_cells es gs).
 Proof.
   intros He Hg Hsc Hst Ha. unfold all_cells. apply in_flat_map. exists e. split; [exact He|].
   apply in_flat_map. exists g. split; [exact Hg|]. apply in_flat_map. exists sc. split; [destruct sc as [|[|?]]; cbn; auto; inversion Hsc; inversion H0; inversion H2|].
-  apply in_flat_map. exists st. split; [destruct st as [|[|[|?]]]; cbn; auto; exfalso; repeat (apply le_S_n in Hst); inversion Hst|].
+  apply in_flat_map. exists st. split; [destruct st as [|[|[|[|[|[|?]]]]]]; cbn; auto 10; exfalso; repeat (apply le_S_n in Hst); inversion Hst|].
   rewrite Ha. left. reflexivity.
 Qed.
 Theorem matrix_ok_sound es gs results e g sc st : matrix_ok es gs results = true ->
-  In e es -> In g gs -> (sc < 2)%nat -> (st < 3)%nat -> applicable e g st = true -> cell_ok results (e_id e, g_id g, sc, st) = true.
+  In e es -> In g gs -> (sc < 2)%nat -> (st < 6)%nat -> applicable e g st = true -> cell_ok results (e_id e, g_id g, sc, st) = true.
 Proof.
   intros H He Hg Hsc Hst Ha. unfold matrix_ok in H. rewrite forallb_forall in H. apply H. apply all_cells_complete; assumption.
 Qed.
 
 Theorem matrix_ok_except_sound es gs excused results e g sc st : matrix_ok_except es gs excused results = true ->
-  In e es -> In g gs -> (sc < 2)%nat -> (st < 3)%nat -> applicable e g st = true ->
+  In e es -> In g gs -> (sc < 2)%nat -> (st < 6)%nat -> applicable e g st = true ->
   existsb (cell_eqb (e_id e, g_id g, sc, st)) excused = true \/ cell_ok results (e_id e, g_id g, sc, st) = true.
 Proof.
   intros H He Hg Hsc Hst Ha. unfold matrix_ok_except in H. rewrite forallb_forall in H.
